@@ -290,3 +290,13 @@ package protobuf
 //@   modifies *
 //@   ensures fromErr == nil && toErr == nil ==> y != nil && y.ChallengeDuration == x.ChallengeDuration && y.LedgerChannel == x.LedgerChannel && y.VirtualChannel == x.VirtualChannel &&
 //@     y.Nonce != nil && val(y.Nonce) == val(x.Nonce) && len(y.Parts) == len(x.Parts) && y.Aux == x.Aux && (isNoApp(x.App) ==> isNoApp(y.App))
+
+// Update messages: actor index, signature bytes, state (through the contracts of FromState/ToState).
+//@ func verifPBChannelUpdate
+//@   requires x != nil && x.State != nil && x.State.App != nil && x.State.Data != nil && validAlloc(x.State.Allocation) && nonNilAssets(x.State.Assets) && nonNilBalances(x.State.Balances) &&
+//@     nonNilLocked(x.State.Locked) && len(x.State.Backends) == len(x.State.Assets) && streaming()
+//@   requires (forall i int :: 0 <= i && i < len(x.State.Backends) ==> 0 <= x.State.Backends[i] && x.State.Backends[i] <= 4294967295) && (!isNoApp(x.State.App) ==> marshalLen(appDef(x.State.App)) > 0)
+//@   modifies *
+//@   inlines FromChannelUpdate, ToChannelUpdate
+//@   ensures fromErr == nil && toErr == nil ==> y.ActorIdx == x.ActorIdx && len(y.Sig) == len(x.Sig) && (forall j int :: 0 <= j && j < len(x.Sig) ==> y.Sig[j] == x.Sig[j])
+//@   ensures fromErr == nil && toErr == nil ==> y.State != nil && pbStateEq(y.State, x.State)
